@@ -146,7 +146,7 @@ pub fn worker(cases_path: &str, out_path: &str) {
         out.flush().unwrap();
         let ceiling = (64usize << 20) + 32 * bytes.len();
         let base = alloc_reset();
-        alloc_limit(1 << 30);
+        alloc_limit(std::env::var("C08_LIMIT").ok().and_then(|s| s.parse().ok()).unwrap_or(1 << 30));
         let t0 = std::time::Instant::now();
         let res = exercise(&bytes, &cfg);
         let (peak, biggest) = alloc_peak();
